@@ -79,7 +79,7 @@ def rule_lr_fallback(rep):
         body = loop.body
         # region: from `actions = None` up to (excluding) the `if not actions:` error arm
         start = next((i for i, s in enumerate(body) if isinstance(s, ast.Assign) and is_name(s.targets[0], "actions")), None)
-        end = next((i for i, s in enumerate(body) if isinstance(s, ast.If) and unparse(s.test) in ("not actions",)), None)
+        end = next((i for i, s in enumerate(body) if isinstance(s, ast.If) and "self.errors.append(" in unparse(s)), None)
         r.need(start is not None and end is not None and start < end, "LR action lookup region not found")
         region = body[start:end]
         atoms = Atoms()
